@@ -64,8 +64,11 @@ def plan_for(tier: str, seed: int, i: int) -> dict:
         emitters = [["10.0.%d.%d" % (1 + e, rng.randrange(2, 250)), rng.randrange(1024, 65535)] for e in range(n_em)]
     dgs = []
     t = 0
+    t0rng = rng_for(seed, ID, tier + ":t0", i)
     for n in range(rng.randrange(3, 41)):
         t += rng.randrange(1, 40)
+        if n == 0 and t0rng.random() < 0.3:
+            t = 0      # already on its way when the listener is registered: arrives before the loop has done anything else
         r = rng.random()
         cls = ("valid" if r < 0.5 else "foreign" if r < 0.6 else "truncated" if r < 0.7 else "garbage" if r < 0.78
                else "badtag" if r < 0.84 else "bitflip" if r < 0.92 else "version")
@@ -230,6 +233,7 @@ def execute(plan: dict) -> dict:
     for li, l in enumerate(plan["listeners"]):
         register_trap_callback(make_cb(li), listen_ip, l["port"], V2C(l["community"]), loop=loop)
     listen_socks = list(w.net.all_sockets)
+    not_listening = [l["port"] for l in plan["listeners"] if (listen_ip, l["port"]) not in w.net.bound]
     records: List[dict] = []
     by_idx: Dict[int, dict] = {}
     pending: Dict[Tuple[tuple, bytes], List[dict]] = {}
@@ -288,6 +292,9 @@ def execute(plan: dict) -> dict:
         if violation is None:
             violation = {"clause": clause, "detail": d}
 
+    if not_listening:
+        fail("listener-not-listening", "register_trap_callback returned but nothing is bound to port(s) %s yet: a notification "
+             "arriving now (before the loop runs again) has no socket to arrive at" % not_listening)
     if hang is not None:
         last = arrivals[-1] if arrivals else None
         fail("listener-hang", "the listener did not finish processing datagram %s within %d counted events (function "
